@@ -10,10 +10,10 @@ import (
 )
 
 var enumEngineKinds = map[string][]string{
-	"fcuBuild":   {"error", "timeout", "invalid", "syncing", "accepted", "nopayloadid", "stall"},
+	"fcuBuild":   {"error", "timeout", "invalid", "invalid-noerr", "syncing", "accepted", "nopayloadid", "stall"},
 	"getPayload": {"error", "timeout", "unknownpayload", "stall"},
-	"newPayload": {"error", "invalid", "syncing", "accepted", "stall"},
-	"fcuHead":    {"error", "invalid", "syncing", "accepted", "stall"},
+	"newPayload": {"error", "invalid", "invalid-noerr", "syncing", "accepted", "stall"},
+	"fcuHead":    {"error", "invalid", "invalid-noerr", "syncing", "accepted", "stall"},
 }
 
 func enumBaseConfig(r *Rand) Config {
